@@ -36,3 +36,10 @@
 ;; the type a pointer chain ends in
 (declare-fun rtBase (I_reflect_Type) I_reflect_Type)
 (assert (forall ((t I_reflect_Type)) (! (= (rtBase t) (ite (= (rtKind t) 22) (rtBase (rtElem t)) t)) :pattern ((rtBase t)))))
+;; what a reflect.Value / an interface value holds (ghost): the interface a Value was made from, and the basic value
+;; boxed in an interface (stated by the engine at every conversion of a basic value to `any`)
+(declare-fun rvIface (O_reflect_Value) I_any)
+(declare-fun dynStr (I_any) Str)
+(declare-fun dynBool (I_any) Bool)
+(declare-fun dynF64 (I_any) F64)
+(declare-fun dynInt (I_any) Int)
